@@ -232,19 +232,24 @@ pub fn c18(a: &Args) {
         ("mode7", Box::<mode7::CharConverter>::default()),
     ];
     for (name, c) in &convs {
+        for page in 0..4usize {
         for code in 0..256u32 {
-            let r = guard(|| { let u = c.convert_to_unicode(AttributedChar::new(char::from_u32(code).unwrap(), TextAttribute::default())); let back = c.convert_from_unicode(u, 0); (u as u32, back as u32) });
+            let r = guard(|| { let mut attr = TextAttribute::default(); attr.set_font_page(page); let u = c.convert_to_unicode(AttributedChar::new(char::from_u32(code).unwrap(), attr)); let back = c.convert_from_unicode(u, page); (u as u32, back as u32) });
             match r {
-                Ok((u, back)) => out.ev(&json!({"ev":"cp","conv":name,"code":code,"uni":u,"back":back})),
-                Err(p) => out.ev(&json!({"ev":"cp","conv":name,"code":code,"uni":-1,"back":-1,"site":panic_site(&p)})),
+                Ok((u, back)) => out.ev(&json!({"ev":"cp","conv":name,"page":page,"code":code,"uni":u,"back":back})),
+                Err(p) => out.ev(&json!({"ev":"cp","conv":name,"page":page,"code":code,"uni":-1,"back":-1,"site":panic_site(&p)})),
             }
         }
+        }
+        // every font page a caret can carry (the converters take the page as a parameter; the cell typed carries the same page)
+        for page in 0..4usize {
         for t in "ABCDEFGHIJKLMNOPQRSTUVWXYZabcdefghijklmnopqrstuvwxyz0123456789 ".chars() {
-            let r = guard(|| { let code = c.convert_from_unicode(t, 0); let back = c.convert_to_unicode(AttributedChar::new(code, TextAttribute::default())); (code as u32, back as u32) });
+            let r = guard(|| { let code = c.convert_from_unicode(t, page); let mut attr = TextAttribute::default(); attr.set_font_page(page); let back = c.convert_to_unicode(AttributedChar::new(code, attr)); (code as u32, back as u32) });
             match r {
-                Ok((code, back)) => out.ev(&json!({"ev":"typed","conv":name,"ch":t as u32,"code":code,"back":back})),
-                Err(p) => out.ev(&json!({"ev":"typed","conv":name,"ch":t as u32,"code":-1,"back":-1,"site":panic_site(&p)})),
+                Ok((code, back)) => out.ev(&json!({"ev":"typed","conv":name,"page":page,"ch":t as u32,"code":code,"back":back})),
+                Err(p) => out.ev(&json!({"ev":"typed","conv":name,"page":page,"ch":t as u32,"code":-1,"back":-1,"site":panic_site(&p)})),
             }
+        }
         }
     }
     out.flush();
